@@ -284,6 +284,8 @@ func (c *EvalCtx) Eval(e *Expr) EV {
 				}
 				f := tb.DeclareFun(tb.Fresh(e.Var+"!skf", SBool).name, sorts, BV(64))
 				kv = tb.App(f, c.bvars...)
+			} else if !isForall {
+				kv = tb.Fresh(e.Var+"!wit", BV(64)) // witness of a hypothesis-side existential
 			} else {
 				kv = tb.Fresh(e.Var+"!sk", BV(64))
 			}
